@@ -15,4 +15,7 @@ def obligations(tier):
                        unwind=9, n_entries=27, unwindset={"qb_list_length": 12},
                        timeout=300, mem_gb=4, bounds={"scenarios": "%d..%d of 216" % (part * 27, part * 27 + 26), "iterations": 7, "backlog": "{0,1,5}", "readd": "{0,1}"},
                        units=["lib/loop.c", "lib/loop_job.c"], stubs=["fd source stub", "seqenv.h", "nolog.h"]))
+    # family B (always-ready descriptors + a job queued while running, FAMILY_B in c10_fair.c) is not registered:
+    # with descriptor items and job items in the same level lists CBMC's symbolic execution did not finish in 300 s
+    # per scenario (measured); see DESIGN.md.
     return obs
